@@ -9,6 +9,7 @@ handler exactly once iff the changed observable is matched.
 import gc
 
 from ..core import Violation, HarnessError, stream, sut
+from ..core import deep
 from ..sched import Sched
 from .. import graph as G
 from . import c05, c06, c07
@@ -58,8 +59,8 @@ class Prop:
     def gen(self, seed):
         c = stream(seed, "config")
         r = stream(seed, "ops")
-        npool = c.randint(2, 5)
-        nh = c.choice([1, 1, 2, 3])
+        npool = deep(c, [2, 3, 4, 5], [6, 7])
+        nh = deep(c, [1, 1, 2, 3], [4, 5])
         allow_opt = c.random() < 0.25
         deferred = c.random() < 0.2
         handlers = []
@@ -70,7 +71,7 @@ class Prop:
                              "expr": expr, "form": form,
                              "dispatch": "ui" if (deferred and c.random() < 0.6) else "same"})
         pre = c.choice([0, 0, 2, 5])
-        nops = c.choice([3, 6, 10, 16, 24, 30])
+        nops = deep(c, [3, 6, 10, 16, 24, 30], [45, 60])
         gc_mode = c.choice(["explicit", "explicit", "explicit", "storm"])
         k1_witness = False
         er = stream(seed, "env")
@@ -230,9 +231,17 @@ class Prop:
             # model-side guard for known finding K1: refuse ops after which one
             # observable would be matched at two depths of one branch
             dry = world.dry_clone()
+            dries = [dry]
+            if k == "set_extra":
+                # an assignment over a never-read trait materialises its constant
+                # default as the old value: that transient graph counts as well
+                tm = dry.mnodes[dry.idx(op.get("o", 0))]
+                if tm.has_extra and tm.extra is G.UNSET and tm.extra_default is not None:
+                    tm.extra = tm.extra_default
+                    dries.append(dry.dry_clone())
             dry.apply(op, i)
             for h in handlers:
-                if G.match(h.expr, dry.model(h.root_uid))[2]:
+                if any(G.match(h.expr, d.model(h.root_uid))[2] for d in dries):
                     env.log("k1-guard-skip", k)
                     env.probe("k1-guard-skip")
                     env.token("k1skip")
